@@ -308,6 +308,46 @@ def _bounded(prog, g, rd, p_use, f, idx, bound_field, ctx, depth=0, seen=None):
     return None, 'expression of kind %s' % k, None
 
 
+def _ticket_split(prog, g, rd, roles, cp):
+    """When the count handed to Consume is (a local whose single reaching definition is) a conditional expression on the pending
+    flush ticket, return (function, definition point, arm taken with a ticket pending, arm taken without, ctx); else None."""
+    f, idx, ctx, pt = cp.f, cp.n['args'][0], cp.ctx, cp
+    for _hop in range(5):
+        n = strip_casts(f, idx)
+        if n['k'] == 'ref' and n.get('sk') == 'param' and ctx is not None and ctx.call is not None and not ctx.lambda_of:
+            pi = [k for k, pr in enumerate(f.params) if pr['id'] == n['id']]
+            if not pi or pi[0] >= len(ctx.call.get('args', [])):
+                return None
+            npt = g.point_of.get((id(ctx.parent), ctx.call['i']))
+            f, idx, ctx, pt = ctx.caller, ctx.call['args'][pi[0]], ctx.parent, (npt or pt)
+            continue
+        if n['k'] == 'ref' and n.get('sk') == 'local':
+            rp = g.point_of.get((id(ctx), n['i'])) or pt
+            defs = [g.points[d] for (v, d) in rd.get(rp.id, ()) if v == n['id']]
+            vals = [(dp, vx) for dp in defs for (v, st, vx) in defs_in_node(dp.f, dp.n) if v == n['id'] and vx is not None]
+            if len(vals) != 1:
+                return None
+            dp, vx = vals[0]
+            f, idx, ctx, pt = dp.f, vx, dp.ctx, dp
+            continue
+        break
+    n = strip_casts(f, idx)
+    if n['k'] != 'cond':
+        return None
+    lv = leaves(f, n['cnd'])
+    fields = {l[1] for l in lv if l[0] == 'field'}
+    if not (roles.pending and roles.pending in fields):
+        return None
+    from ..expr import norm_cond
+    core, pol = norm_cond(f, n['cnd'])
+    c = comparison(f, core)
+    pending_when_true = pol
+    if c and c[0] == '==' and strip_casts(f, c[2]).get('v') == 0:
+        pending_when_true = not pol
+    a, b = (n['a'], n['b']) if pending_when_true else (n['b'], n['a'])
+    return f, pt, a, b, ctx
+
+
 def _controlling_role(g, roles, dp):
     """describe the branch under which definition point dp executes, by role"""
     f = dp.f
@@ -342,17 +382,47 @@ def rule_r3_r4(ck, prog, cg, roles):
         for cp in consumes:
             f = cp.f
             arg = cp.n['args'][0]
-            v, why, dp = _bounded(prog, g, rd, cp, f, arg, roles.bound_field, cp.ctx)
-            where = _controlling_role(g, roles, dp) if dp is not None else 'consume-count'
-            site = 'consume-count@%s' % where
+            # a count written as one conditional expression on the pending ticket (`pending ? size : min(size, M)`) is judged arm
+            # by arm, exactly like the if/else form
+            split = _ticket_split(prog, g, rd, roles, cp)
+            if split is not None:
+                (df, dpt, arm_pending, arm_idle, dctx) = split
+                for (where, arm) in (('pending-flush-branch', arm_pending), ('no-pending-flush-branch', arm_idle)):
+                    site = 'consume-count@%s' % where
+                    if (df.key, site) in seen_sites:
+                        continue
+                    seen_sites.add((df.key, site))
+                    n3 += 1
+                    v, why, _dp2 = _bounded(prog, g, rd, dpt, df, arm, roles.bound_field, dctx)
+                    if v is True:
+                        ck.holds('C03.R3', df, site if where != 'no-pending-flush-branch' else site, dpt.n, 'bounded by %s (%s)' % (roles.bound_field, why))
+                    elif v is False:
+                        unbounded_pending = unbounded_pending or where == 'pending-flush-branch'
+                        ck.violation('C03.R3', df, site, dpt.n, 'a definition of the batch count reaching Consume is not bounded by %s: %s' % (roles.bound_field, why))
+                    else:
+                        ck.inconclusive('C03.R3', df, site, dpt.n, 'cannot decide whether the count is bounded: %s' % why)
+                v = None
+                _r4_only = True
+            else:
+                _r4_only = False
+            if not _r4_only:
+                v, why, dp = _bounded(prog, g, rd, cp, f, arg, roles.bound_field, cp.ctx)
+                where = _controlling_role(g, roles, dp) if dp is not None else 'consume-count'
+                site = 'consume-count@%s' % where
+            else:
+                site = 'consume-count@split'
+                dp = None
             key = (f.key, site)
             if key in seen_sites:
                 continue
             seen_sites.add(key)
-            n3 += 1
-            if v is True:
+            if _r4_only:
+                pass
+            elif v is True:
+                n3 += 1
                 ck.holds('C03.R3', f, 'consume-count', cp.n, 'count passed to Consume is bounded by %s (%s)' % (roles.bound_field, why))
             elif v is False:
+                n3 += 1
                 unbounded_pending = unbounded_pending or where == 'pending-flush-branch'
                 ck.violation('C03.R3', dp.f if dp is not None else f, site, dp.n if dp is not None else cp.n,
                              'a definition of the batch count reaching Consume is not bounded by %s: %s' % (roles.bound_field, why),
@@ -373,6 +443,7 @@ def rule_r3_r4(ck, prog, cg, roles):
                     else:
                         ck.inconclusive('C03.R3', f, osite, odp.n, owhy)
             else:
+                n3 += 1
                 ck.inconclusive('C03.R3', f, site, cp.n, 'cannot decide whether the count is bounded: %s' % why)
             # R4: export dominated by the non-zero test of the same count variable
             cn = strip_casts(f, arg)
